@@ -174,3 +174,95 @@ Proof.
   apply bind_ret in H as (raws & _ & H).
   eapply map_out_forall; [|exact H]. intros raw e He. eapply parse_template_parts. exact He.
 Qed.
+
+(* ---- no two literal parts in a row ---- *)
+From WF Require Import Proofs.RoutesP.
+
+Definition last_is_static (ps : list part) : bool :=
+  match rev ps with PS _ :: _ => true | _ => false end.
+
+Lemma last_is_static_snoc ps p : last_is_static (ps ++ [p]) = match p with PS _ => true | _ => false end.
+Proof. unfold last_is_static. rewrite rev_app_distr. reflexivity. Qed.
+
+Lemma last_is_static_cons q q' ps : last_is_static (q :: q' :: ps) = last_is_static (q' :: ps).
+Proof.
+  unfold last_is_static. cbn [rev]. destruct (rev ps ++ [q']) as [|x l] eqn:E; [destruct (rev ps); discriminate|].
+  reflexivity.
+Qed.
+
+Lemma parts_norm_snoc : forall ps p,
+  parts_norm ps = true -> (match p with PS _ => last_is_static ps = false | _ => True end) ->
+  parts_norm (ps ++ [p]) = true.
+Proof.
+  induction ps as [|q ps IH]; intros p Hn Hp; cbn [app]; [destruct p; reflexivity|].
+  destruct ps as [|q' ps].
+  - cbn [app]. destruct q, p; cbn; try reflexivity. cbn in Hp. discriminate.
+  - assert (Hn' : parts_norm (q' :: ps) = true) by (eapply parts_norm_tail; eauto).
+    assert (IH' : parts_norm ((q' :: ps) ++ [p]) = true).
+    { apply IH; [exact Hn'|]. destruct p; auto. rewrite last_is_static_cons in Hp. exact Hp. }
+    cbn [app] in *. destruct q, q'; cbn [parts_norm] in *; auto.
+Qed.
+
+Lemma static_part_stop : forall steps raw en acc s e,
+  static_part steps raw en acc = Ret (s, e) ->
+  length raw <= e \/ exists c, nth_error raw e = Some c /\ (N.eqb c LB || N.eqb c RB = true)%bool.
+Proof.
+  induction steps as [|steps IH]; intros raw en acc s e H; cbn [static_part] in H; [discriminate|].
+  destruct (Nat.ltb en (length raw)) eqn:El.
+  - unfold idx in H. destruct (nth_error raw en) as [c|] eqn:En; cbn [bind] in H; [|discriminate].
+    destruct (N.eqb c BSL).
+    + destruct (nth_error raw (S en)); eapply IH; exact H.
+    + destruct (N.eqb c LB || N.eqb c RB)%bool eqn:Eb.
+      * inversion H; subst. right. exists c. auto.
+      * eapply IH; exact H.
+  - inversion H; subst. left. apply Nat.ltb_ge in El. exact El.
+Qed.
+
+Definition loop_inv2 (raw : bytes) (cursor : nat) (parts : list part) : Prop :=
+  parts_norm parts = true
+  /\ (last_is_static parts = true ->
+      length raw <= cursor \/ exists c, nth_error raw cursor = Some c /\ (N.eqb c LB || N.eqb c RB = true)%bool).
+
+Lemma template_loop_norm : forall steps raw cursor seen parts ps,
+  template_loop steps raw cursor seen parts = Ret ps -> loop_inv2 raw cursor parts -> parts_norm ps = true.
+Proof.
+  induction steps as [|steps IH]; intros raw cursor seen parts ps H [Hn Hlast]; cbn [template_loop] in H; [discriminate|].
+  destruct (Nat.ltb cursor (length raw)) eqn:El; [|inversion H; subst; exact Hn].
+  apply Nat.ltb_lt in El.
+  apply bind_ret in H as (c & Hc & H).
+  unfold idx in Hc. destruct (nth_error raw cursor) as [c'|] eqn:En; [|discriminate]. inversion Hc; subst c'. clear Hc.
+  destruct (N.eqb c LB) eqn:Elb.
+  - apply bind_ret in H as ([p next] & Hp & H).
+    apply parameter_part_ok in Hp as (_ & Hpp & _).
+    match type of H with (match ?t with Some _ => _ | None => _ end) = _ => destruct t as [[s0 l0]|] end.
+    { apply bind_ret in H as (l & _ & H). discriminate. }
+    destruct (part_name p) as [name|] eqn:Epn; [|destruct p; discriminate].
+    match type of H with (match ?t with Some _ => _ | None => _ end) = _ => destruct t as [[[? ?] ?]|] end.
+    { apply bind_ret in H as (sl & _ & H). discriminate. }
+    apply bind_ret in H as (sl & _ & H).
+    eapply IH; [exact H|]. split.
+    + apply parts_norm_snoc; [exact Hn|]. destruct p; [discriminate|exact I|exact I].
+    + rewrite last_is_static_snoc. destruct p; [discriminate| |]; discriminate.
+  - destruct (N.eqb c RB) eqn:Erb; [discriminate|].
+    apply bind_ret in H as ([s next] & Hs & H).
+    eapply IH; [exact H|]. split.
+    + apply parts_norm_snoc; [exact Hn|].
+      destruct (last_is_static parts) eqn:E; [|reflexivity].
+      destruct (Hlast eq_refl) as [Hx|(c2 & Hc2 & Hb)]; [lia|].
+      assert (c2 = c) by congruence. subst c2. rewrite Elb, Erb in Hb. discriminate.
+    + intros _. eapply static_part_stop. exact Hs.
+Qed.
+
+Lemma parse_template_norm raw e : parse_template raw = Ret e -> parts_norm (snd e) = true.
+Proof.
+  unfold parse_template. destruct (match raw with [] => false | b :: _ => negb (N.eqb b SL) end); [discriminate|].
+  intros H. apply bind_ret in H as (ps & Hps & H). inversion H; subst. cbn [snd].
+  eapply template_loop_norm; [exact Hps|]. split; [reflexivity|]. intros Hx. discriminate.
+Qed.
+
+Theorem parse_parts_norm t es : parse t = Ret es -> Forall (fun e : expansion => parts_norm (snd e) = true) es.
+Proof.
+  unfold parse. destruct t as [|b t]; [discriminate|]. intros H.
+  apply bind_ret in H as (raws & _ & H).
+  eapply map_out_forall; [|exact H]. intros raw e He. eapply parse_template_norm. exact He.
+Qed.
